@@ -2,7 +2,7 @@
    harness/drive_c19.py recorded from the real createFilter / `jobs clean` /
    `orphans` on the same filter text and the same on-disk workspace.        *)
 From Coq Require Import NArith List Bool.
-From XV Require Import model.Filter model.Clean.
+From XV Require Import model.Filter model.Clean model.FilterParse.
 Import ListNotations.
 Open Scope N_scope.
 
@@ -42,7 +42,22 @@ Inductive ccase :=
   (* `jobs clean` on a workspace: raised?, directories that disappeared *)
   | CClean (w : ws) (o : opts) (raised : bool) (removed : list key)
   (* `orphans [--clean] [--ignore-old]`: directories that disappeared *)
-  | COrphans (w : ws) (do_clean ignore_old : bool) (removed : list key).
+  | COrphans (w : ws) (do_clean ignore_old : bool) (removed : list key)
+  (* the same on a workspace where some entries of jobs/<task>/ are links to job directories:
+     raised?, real directories that disappeared *)
+  | COrphansL (w : ws) (links : list lnk) (do_clean ignore_old : bool) (raised : bool) (removed : list key)
+  (* a text handed to createFilter (in the grammar or near it): accepted?, then its answer on the job
+     (None = evaluating raised); table = the regular expressions whose source may occur in the text *)
+  | CParse (text : str) (table : list (str * pattern)) (j : job) (accepted : bool) (value : option bool)
+  (* `jobs clean --filter text` *)
+  | CCleanText (w : ws) (experiment text : str) (table : list (str * pattern)) (perform raised : bool)
+               (removed : list key).
+
+Fixpoint lookup_re (table : list (str * pattern)) (src : str) : option pattern :=
+  match table with
+  | [] => None
+  | (s, p) :: t => if str_eqb s src then Some p else lookup_re t src
+  end.
 
 Definition check_case (c : ccase) : bool :=
   match c with
@@ -54,4 +69,21 @@ Definition check_case (c : ccase) : bool :=
   | CClean w o raised removed =>
       Bool.eqb raised (clean_raises o) && same_keys removed (clean w o)
   | COrphans w c io removed => same_keys removed (orphans_clean w c io)
+  | COrphansL w links c io raised removed =>
+      negb raised && same_keys removed (orphans_clean_l w links c io)
+  | CParse text table j accepted value =>
+      match parse_filter text with
+      | None => negb accepted
+      | Some r => accepted && obool_eqb value (reval (lookup_re table) r (env_of state j))
+      end
+  | CCleanText w xp text table perform raised removed =>
+      match parse_filter text with
+      | None => raised && isnil removed        (* rejected: the command fails before it touches anything *)
+      | Some r =>
+          match expr_of (lookup_re table) r with
+          | Some x => negb raised
+                      && same_keys removed (clean w {| o_experiment := xp; o_filter := Some x; o_perform := perform |})
+          | None => false
+          end
+      end
   end.
